@@ -1,13 +1,16 @@
 """C07 — a failed transaction leaves nothing behind but its nonce increment and fee; read-only execution changes nothing."""
 from ..runner import EngineSpec, PropSpec
-from .. import gen_exec, mon_exec
+from .. import gen_exec, mon_exec, gen_ledger
 from . import register
 
 register(PropSpec(
     "C07",
-    engines=[EngineSpec("exec", gen_exec.gen_c07, mon_exec.mon_c07, mon_exec.tags_c07, quick_n=200, thorough_n=5000, mask=mon_exec.mask_unmodelled)],
+    engines=[EngineSpec("exec", gen_exec.gen_c07, mon_exec.mon_c07, mon_exec.tags_c07, quick_n=200, thorough_n=5000, mask=mon_exec.mask_unmodelled),
+             EngineSpec("ledger", gen_ledger.gen_revert, gen_ledger.mon_c07, gen_ledger.tags_ledger, quick_n=150, thorough_n=4000)],
     rule="exec engine: fee-starved signers (chain admins and users drained to below one fee) submit IBTPs that are processed and then "
          "cannot pay, check-rejected IBTPs, contract calls that error (wrong arity, unknown method, denied caller, governance calls) and "
          "bad transfers; every such block and every run of read-only (view) executions is bracketed by a dump of all committed contract "
-         "storage, balances and nonces; non-trivial = at least one bracketed all-failed block or view run; distinct = op list + tag set",
+         "storage, balances and nonces; non-trivial = at least one bracketed all-failed block or view run; distinct = op list + tag set; "
+         "ledger engine: blocks whose last transaction is a scripted failed one (snapshot, set/add/delete of a key that an earlier transaction of the block set, "
+         "added or deleted, revert), then flush / commit / cache eviction / reopen and read-back, against the SimpleLedger model and a plain-map reference",
 ))
